@@ -322,7 +322,7 @@ class Ctx:
         self.rng = random.Random(seed * 1000003 + int(prop[1:]))
         random.seed(seed)
         self.t0 = time.time()
-        self.work = BUILD / prop
+        self.work = BUILD / (prop + os.environ.get('VERIF_WORK_SUFFIX', ''))   # suffix: parallel runs against scratch trees
         self.work.mkdir(parents=True, exist_ok=True)
         for stale in list(self.work.glob('replay_*.json')) + list(self.work.glob('failures.json')):
             if '--replay' not in sys.argv:
@@ -365,6 +365,8 @@ class Ctx:
             res.wall += r2.wall
             res.cmd += f' ; same for {more}'
             res.ok = res.ok and r2.ok
+        if res.ok and self.tier == 'thorough':
+            self.coqchk([prop_file] + list(extra), res)
         self.proof = res
         log(f'[{self.prop}] proof layer: {res.discharged}/{res.obligations} obligations in {len(res.files)} files, '
             f'{"ok" if res.ok else "BROKEN"} ({res.wall:.1f}s)')
@@ -377,6 +379,31 @@ class Ctx:
                 if not txt.startswith('Closed under the global context'):
                     self.notes.append(f'Print Assumptions {thm}: {txt}')
         return res
+
+    def coqchk(self, prop_files: Sequence[str], res: ProofResult) -> None:
+        """Thorough tier: the compiled property files and everything they depend on are re-checked by Coq's independent
+        checker; `-o` lists the axioms of every loaded library and any use of type-in-type / unguarded fixpoints /
+        assumed positivity."""
+        t = time.time()
+        mods = ['KV.' + f[:-2].replace('/', '.') for f in prop_files]
+        with CoqLock():
+            p = subprocess.run(['timeout', '1800', 'coqchk', '-silent', '-o', '-R', '.', 'KV'] + mods, cwd=COQ, capture_output=True, text=True)
+        out = p.stdout + p.stderr
+        summary = out[out.find('CONTEXT SUMMARY'):] if 'CONTEXT SUMMARY' in out else out[-2000:]
+        fields = {}
+        for m in re.finditer(r'\* ([^:\n]+):\s*(.*?)(?=\n\* |\Z)', summary, flags=re.S):
+            fields[m.group(1).strip()] = ' '.join(m.group(2).split())
+        self.cov['coqchk'] = {'cmd': 'coqchk -silent -o -R coq KV ' + ' '.join(mods), 'exit': p.returncode, 'summary': fields,
+                              'wall_s': round(time.time() - t, 1)}
+        clean = p.returncode == 0 and all(fields.get(k) == '<none>' for k in
+                                          ('Axioms', 'Constants/Inductives relying on type-in-type',
+                                           'Constants/Inductives relying on unsafe (co)fixpoints', 'Inductives whose positivity is assumed'))
+        log(f'[{self.prop}] coqchk -o: exit {p.returncode}, axioms: {fields.get("Axioms")} ({time.time() - t:.1f}s)')
+        if p.returncode != 0:
+            res.ok = False
+            res.failed.append('coqchk: ' + out[-400:])
+        elif not clean:
+            self.notes.append(f'coqchk -o reports: {fields}')
 
     # ---- correspondence layer
     def differential(self, name: str, header: str, cases: Sequence[Case], shard: int = 400,
